@@ -57,3 +57,24 @@ Example C19_nonvacuous :
   line_lens (bytes_in inp) 0 = [2; 5] /\
   from_trait default_ro (fun _ => true) true dec_to_f64 SrcIo (bytes_events (s2b "(a")) = PErr (XErr (ESyntax EofWhileParsingList 1 2)).
 Proof. vm_compute. repeat split; reflexivity. Qed.
+
+(* The truncation clause is FALSE of the model (and of the code: the witness is
+   replayed on the implementation by the C19 check and listed as a known
+   finding). A decimal literal may need its exponent to be in range: 1 followed
+   by 320 zeros and "e-320" reads as the float 1.0, while every prefix that
+   ends inside the run of zeros past the 309th digit, or inside the exponent
+   before it has brought the magnitude back, is a complete out-of-range literal
+   at the end of the input - NumberOutOfRange, category Syntax, not EOF. *)
+Definition c19_long_literal : bytes := 49 :: repeat 48 320 ++ s2b "e-320".
+Theorem C19_truncation_is_eof_refuted :
+  exists (text prefix : bytes) c l cl,
+    (exists rest, rest <> [] /\ text = prefix ++ rest) /\
+    (exists v, from_trait default_ro (fun _ => true) true dec_to_f64 SrcSlice (bytes_events text) = POk v) /\
+    from_trait default_ro (fun _ => true) true dec_to_f64 SrcSlice (bytes_events prefix) = PErr (XErr (ESyntax c l cl)) /\
+    classify_code c = CatSyntax.
+Proof.
+  exists c19_long_literal, (49 :: repeat 48 320), NumberOutOfRange, 1, 321.
+  split; [exists (s2b "e-320"); split; [discriminate|reflexivity]|].
+  split; [eexists; vm_compute; reflexivity|]. split; vm_compute; reflexivity.
+Qed.
+Print Assumptions C19_truncation_is_eof_refuted.
